@@ -143,6 +143,9 @@ def match_known(known, prop, harness, check):
 def run_harness(spec, slot, prop, logdir, playback=False):
     tree_digest, crate_digests = core.prepare_tree(slot, real_zeroize=spec.get("real_zeroize", False))
     digest = crate_digests.get(spec["crate"], tree_digest)
+    if spec.get("ext"):
+        # harness defined in harness/inject_ext: its own sources are part of its key (and of nobody else's)
+        digest = digest + crate_digests.get("__ext__", "")
     log = os.path.join(logdir, spec["name"] + (".playback" if playback else "") + ".log")
     if any("{CLI}" in u for u in spec.get("unwindset", [])):
         # per-loop bounds name loops by mangled symbol, and the mangling of kestrel-cli's own symbols contains a crate
